@@ -43,7 +43,7 @@ type Run struct {
 
 	mu           sync.Mutex
 	evals        int64
-	distinct     map[string]struct{}
+	distinct     map[uint64]struct{} // 64-bit FNV-1a of the case keys (millions of keys in thorough runs)
 	samples      []any
 	counters     map[string]int64
 	sets         map[string]map[string]struct{}
@@ -99,7 +99,7 @@ func Seed() int64 {
 func New(prop, tier, level string) *Run {
 	r := &Run{
 		Prop: prop, Tier: tier, Seed: Seed(), Level: level,
-		distinct: map[string]struct{}{}, counters: map[string]int64{},
+		distinct: map[uint64]struct{}{}, counters: map[string]int64{},
 		sets: map[string]map[string]struct{}{}, extra: map[string]any{},
 		known: map[string]int{}, knownWhat: map[string]string{},
 		start: time.Now(), dir: Dir(),
@@ -135,8 +135,12 @@ func (r *Run) Eval(n int) { r.mu.Lock(); r.evals += int64(n); r.mu.Unlock() }
 
 // Distinct records a distinct non-trivial case key.
 func (r *Run) Distinct(key string) {
+	h := uint64(14695981039346656037)
+	for i := 0; i < len(key); i++ {
+		h = (h ^ uint64(key[i])) * 1099511628211
+	}
 	r.mu.Lock()
-	r.distinct[key] = struct{}{}
+	r.distinct[h] = struct{}{}
 	r.mu.Unlock()
 }
 
@@ -361,7 +365,7 @@ func Guard(f func()) (panicked string) {
 // dump is the serialised state a child process hands to its parent.
 type dump struct {
 	Evals        int64               `json:"evals"`
-	Distinct     []string            `json:"distinct"`
+	Distinct     []uint64            `json:"distinct"`
 	Samples      []any               `json:"samples"`
 	Counters     map[string]int64    `json:"counters"`
 	Sets         map[string][]string `json:"sets"`
